@@ -4,7 +4,9 @@ package secretstore
 
 import (
 	"context"
+
 	"fmt"
+	"google.golang.org/protobuf/proto"
 	"strings"
 	"testing"
 	"time"
@@ -21,14 +23,16 @@ import (
 // c + window + n is openable.
 
 type c02cThread struct {
-	Opens []int // message numbers (1-based) opened in this order through the log path
-	Reg   bool  // re-deliver the chain-key announcement instead
+	Opens  []int // message numbers (1-based) opened in this order through the log path
+	Reg    bool  // re-deliver the chain-key announcement instead
+	Pushes []int // message numbers opened from their push payloads (C14)
 }
 
 type c02cScenario struct {
 	Name    string
 	Window  int
 	Threads []c02cThread
+	Prop    string // C02 (default) or C14: the property the verdicts are reported under
 }
 
 type c02cWorld struct {
@@ -39,10 +43,15 @@ type c02cWorld struct {
 	res    []string
 	bad    []string
 	opened map[int]bool
+	pushes [][]byte
 }
 
 func c02cScen(seed int64, sc c02cScenario) vsync.Scenario {
 	const sealed = 7
+	prop := sc.Prop
+	if prop == "" {
+		prop = "C02"
+	}
 	return vsync.Scenario{
 		Name: sc.Name,
 		Setup: func(s *vsync.Sched) vsync.World {
@@ -54,6 +63,16 @@ func c02cScen(seed int64, sc c02cScenario) vsync.Scenario {
 			must(w.R.st.RegisterChainKey(context.Background(), w.g, w.S.md(w.g).Device(), w.ann))
 			for k := 1; k <= sealed; k++ {
 				w.envs = append(w.envs, w.S.seal(w.g, []byte(fmt.Sprintf("payload-%d", k))))
+			}
+			if prop == "C14" {
+				must(w.R.st.PutGroup(context.Background(), w.g))
+				for k := 1; k <= sealed; k++ {
+					env, headers, err := w.S.st.OpenEnvelopeHeaders(w.envs[k-1], w.g)
+					must(err)
+					oos, err := w.S.st.SealOutOfStoreMessageEnvelope(cidOf(w.envs[k-1]), env, headers, w.g)
+					must(err)
+					w.pushes = append(w.pushes, mustBytes(proto.Marshal(oos)))
+				}
 			}
 			w.R.ds.hook = func(op, key string) { vsync.PointHere("ds-" + op) }
 			for ti, th := range sc.Threads {
@@ -67,8 +86,17 @@ func c02cScen(seed int64, sc c02cScenario) vsync.Scenario {
 						}
 						return
 					}
+					for _, k := range th.Pushes {
+						r := w.R.pushOpen(w.pushes[k-1])
+						w.res = append(w.res, fmt.Sprintf("T%d:push(%d)=%v", ti, k, r.ok))
+						if !r.ok {
+							w.bad = append(w.bad, fmt.Sprintf("push-open(%d) by task %d failed: %s", k, ti, r.err))
+						} else if string(r.payload) != fmt.Sprintf("payload-%d", k) || r.counter != uint64(k) {
+							w.bad = append(w.bad, fmt.Sprintf("push-open(%d) returned payload %q counter %d", k, r.payload, r.counter))
+						}
+					}
 					for _, k := range th.Opens {
-						r := w.R.open(w.g, w.envs[k-1])
+						r := w.R.logOpen(w.g, w.envs[k-1])
 						w.res = append(w.res, fmt.Sprintf("T%d:open(%d)=%v", ti, k, r.ok))
 						if !r.ok {
 							w.bad = append(w.bad, fmt.Sprintf("open(%d) by task %d failed: %s", k, ti, r.err))
@@ -88,25 +116,35 @@ func c02cScen(seed int64, sc c02cScenario) vsync.Scenario {
 			w.R.ds.hook = nil
 			o := strings.Join(w.res, " ")
 			if len(x.Panics) > 0 {
-				return "panic", &vsync.Verdict{Sig: "C02/panic", Desc: fmt.Sprint(x.Panics)}
+				return "panic", &vsync.Verdict{Sig: prop + "/panic", Desc: fmt.Sprint(x.Panics)}
 			}
 			if x.Deadlock {
-				return "deadlock", &vsync.Verdict{Sig: "C02/deadlock", Desc: fmt.Sprint(x.BlockedAll)}
+				return "deadlock", &vsync.Verdict{Sig: prop + "/deadlock", Desc: fmt.Sprint(x.BlockedAll)}
 			}
 			// every concurrent open was within the window when it was issued (scenarios are built that way)
 			if len(w.bad) > 0 {
-				return o, &vsync.Verdict{Sig: "C02/concurrent-open-failed", Desc: strings.Join(w.bad, "; ")}
+				return o, &vsync.Verdict{Sig: prop + "/concurrent-open-failed", Desc: strings.Join(w.bad, "; ")}
+			}
+			if prop == "C14" {
+				// every message the log path has just delivered opens from its push payload, flagged as already received
+				// (checked now: they are inside the reference window around the last delivered counter)
+				for k := range w.opened {
+					r := w.R.pushOpen(w.pushes[k-1])
+					if !r.ok || string(r.payload) != fmt.Sprintf("payload-%d", k) || !r.received {
+						return o, &vsync.Verdict{Sig: "C14/push-of-received-message-after-concurrent-opens", Desc: fmt.Sprintf("(%s) push payload of message %d, which the log path has delivered: ok=%v received=%v payload=%q err=%s", o, k, r.ok, r.received, r.payload, r.err)}
+					}
+				}
 			}
 			// the reference ratchet: registered at 0, n distinct messages opened => every k <= window + n is openable,
 			// opened ones re-open
 			n := len(w.opened)
 			for k := 1; k <= sc.Window+n && k <= sealed; k++ {
-				r := w.R.open(w.g, w.envs[k-1])
+				r := w.R.logOpen(w.g, w.envs[k-1])
 				if !r.ok {
-					return o, &vsync.Verdict{Sig: "C02/not-openable-after-concurrent-opens", Desc: fmt.Sprintf("window %d, %d distinct messages opened concurrently (%s): message %d <= %d is refused: %s", sc.Window, n, o, k, sc.Window+n, r.err)}
+					return o, &vsync.Verdict{Sig: prop + "/not-openable-after-concurrent-opens", Desc: fmt.Sprintf("window %d, %d distinct messages opened concurrently (%s): message %d <= %d is refused: %s", sc.Window, n, o, k, sc.Window+n, r.err)}
 				}
 				if string(r.payload) != fmt.Sprintf("payload-%d", k) {
-					return o, &vsync.Verdict{Sig: "C02/wrong-payload", Desc: fmt.Sprintf("message %d opens to %q", k, r.payload)}
+					return o, &vsync.Verdict{Sig: prop + "/wrong-payload", Desc: fmt.Sprintf("message %d opens to %q", k, r.payload)}
 				}
 				if !w.opened[k] {
 					n++ // a newly opened message slides the window by one
@@ -130,17 +168,17 @@ func TestVerifC02Conc(t *testing.T) {
 	}()
 	seed := vrep.Seed()
 	scs := []c02cScenario{
-		{"open(1) || open(2), window 2", 2, []c02cThread{{Opens: []int{1}}, {Opens: []int{2}}}},
-		{"open(1) || open(1), window 1", 1, []c02cThread{{Opens: []int{1}}, {Opens: []int{1}}}},
-		{"open(2) || open(1) open(3), window 2", 2, []c02cThread{{Opens: []int{2}}, {Opens: []int{1, 3}}}},
-		{"open(1) || announcement re-delivered, window 1", 1, []c02cThread{{Opens: []int{1}}, {Reg: true}}},
+		{"open(1) || open(2), window 2", 2, []c02cThread{{Opens: []int{1}}, {Opens: []int{2}}}, ""},
+		{"open(1) || open(1), window 1", 1, []c02cThread{{Opens: []int{1}}, {Opens: []int{1}}}, ""},
+		{"open(2) || open(1) open(3), window 2", 2, []c02cThread{{Opens: []int{2}}, {Opens: []int{1, 3}}}, ""},
+		{"open(1) || announcement re-delivered, window 1", 1, []c02cThread{{Opens: []int{1}}, {Reg: true}}, ""},
 	}
 	bound, budget := 2, 4*time.Minute
 	if vrep.Thorough() {
 		bound, budget = 3, 20*time.Minute
 		scs = append(scs,
-			c02cScenario{"open(1) || open(2) || open(3), window 3", 3, []c02cThread{{Opens: []int{1}}, {Opens: []int{2}}, {Opens: []int{3}}}},
-			c02cScenario{"open(1) open(2) || open(2) open(1), window 2", 2, []c02cThread{{Opens: []int{1, 2}}, {Opens: []int{2, 1}}}},
+			c02cScenario{"open(1) || open(2) || open(3), window 3", 3, []c02cThread{{Opens: []int{1}}, {Opens: []int{2}}, {Opens: []int{3}}}, ""},
+			c02cScenario{"open(1) open(2) || open(2) open(1), window 2", 2, []c02cThread{{Opens: []int{1, 2}}, {Opens: []int{2, 1}}}, ""},
 		)
 	}
 	var vs []vsync.Scenario
@@ -148,4 +186,33 @@ func TestVerifC02Conc(t *testing.T) {
 		vs = append(vs, c02cScen(seed, sc))
 	}
 	vsync.ExploreScenarios(rep, "concurrent", vs, bound, 4000, budget)
+}
+
+// C14, concurrent part: the push path and the log path of one sender's messages run at the same time.
+func TestVerifC14Conc(t *testing.T) {
+	rep := vrep.New("C14")
+	defer func() {
+		if err := rep.Finish(); err != nil {
+			t.Fatal(err)
+		}
+		if rep.NViolations() > 0 {
+			t.Fail()
+		}
+	}()
+	seed := vrep.Seed()
+	scs := []c02cScenario{
+		{Name: "log(1) || push(1), window 1", Window: 1, Threads: []c02cThread{{Opens: []int{1}}, {Pushes: []int{1}}}, Prop: "C14"},
+		{Name: "log(1) || push(2), window 2", Window: 2, Threads: []c02cThread{{Opens: []int{1}}, {Pushes: []int{2}}}, Prop: "C14"},
+		{Name: "push(1) || push(1), window 1", Window: 1, Threads: []c02cThread{{Pushes: []int{1}}, {Pushes: []int{1}}}, Prop: "C14"},
+	}
+	bound, budget := 2, 4*time.Minute
+	if vrep.Thorough() {
+		bound, budget = 3, 20*time.Minute
+		scs = append(scs, c02cScenario{Name: "log(1) log(2) || push(2) push(1), window 2", Window: 2, Threads: []c02cThread{{Opens: []int{1, 2}}, {Pushes: []int{2, 1}}}, Prop: "C14"})
+	}
+	var vs []vsync.Scenario
+	for _, sc := range scs {
+		vs = append(vs, c02cScen(seed, sc))
+	}
+	vsync.ExploreScenarios(rep, "concurrent", vs, bound, 5000, budget)
 }
